@@ -144,6 +144,14 @@ class WebSocketCodec(BaseComponent):
                 # check for client closing the connection
                 elif opcode == 8:
                     self._close_received = True
+                    # what was received before the close frame is delivered
+                    # before it
+                    for message in msgs:
+                        if self._sock is not None:
+                            self.fire(read(self._sock, message))
+                        else:
+                            self.fire(read(message))
+                    msgs = []
                     if self._sock:
                         self.fire(close(self._sock))
                     else:
